@@ -89,6 +89,7 @@ def frame(ty, payload, rng, tform=None, lform=None, lendelta=0):
 
 class C02(Prop):
     id = "C02"
+    claim = False
     modules = ["H3.Props.C02"]
     engines = ["frame", "fs"]
     design_ref = "DESIGN.md section 7, C02 and Appendix B.1"
